@@ -14,6 +14,40 @@ def showProblem (K : Kernel) : Problem → String
   | .loopVar x => "loop:" ++ K.varNames.getD x (toString x)
   | .container a => "container:" ++ K.arrNames.getD a (toString a)
 
+/-- `x,v;x,v` -/
+def scalars? (s : String) : Option (List (Nat × Int)) :=
+  if s == "-" then some [] else (s.splitOn ";").mapM fun t =>
+    match t.splitOn "," with
+    | [a, b] => do pure (← a.toNat?, ← b.toInt?)
+    | _ => none
+
+/-- `id=v,v,v|id=#len|…` (`#len`: that many zeros — a float array, only its length matters) -/
+def arrays? (s : String) : Option (List (Nat × List Int)) :=
+  if s == "-" then some [] else (s.splitOn "|").mapM fun t =>
+    match t.splitOn "=" with
+    | [a, b] => do
+      let id ← a.toNat?
+      if b.startsWith "#" then
+        let n ← (b.drop 1).toNat?
+        pure (id, List.replicate n 0)
+      else
+        pure (id, ← intList? b)
+    | _ => none
+
+def inputs? (dims sc ar : String) : Option Inputs := do
+  pure { dims := ← natList? dims, scalars := ← scalars? sc, arrs := ← arrays? ar }
+
+/-- a fixed pseudo-random oracle -/
+def oracle (seed : Nat) (t k : Nat) : Int :=
+  (((seed + 1) * 1103515245 + t * 12345 + k * 7919 + (t * t) % 8191) % 1000003 : Nat)
+
+def showRes (K : Kernel) : Res → String
+  | .ok _ => "ok"
+  | .done => "ok"
+  | .fuel => "fuel"
+  | .err (.oob s) => s!"oob {s} {(K.siteNames.getD s "?").replace " " ""}"
+  | .err (.uninit x) => s!"uninit {K.varNames.getD x (toString x)}"
+
 def handle : Handler
   | "c17.kernels", [] => some (",".intercalate (SkNet.Generated.KernelIR.all.map (·.name)))
   -- `c17.kind <kernel>` -> `ok|bad <ill sites> <value problems>`: `ok` iff the checker accepts the kernel
@@ -25,6 +59,20 @@ def handle : Handler
         let ok := K.checkWith ill
         let pr := (problems K.env K.body).eraseDups
         s!"{if ok then "ok" else "bad"} {showList ill} {if pr.isEmpty then "-" else ",".intercalate (pr.map (showProblem K))}"
+  -- contract of the kind declarations on the arguments a kernel was really called with
+  | "c17.sat", [nm, dims, sc, ar] => some <| match findKernel nm, inputs? dims sc ar with
+      | some K, some inp =>
+        if inp.satisfies K.env then "holds"
+        else "fails " ++ ",".intercalate ((inp.violations K.env).map fun v =>
+          match v.splitOn ":" with
+          | ["array", a] => "array:" ++ K.arrNames.getD a.toNat! a
+          | ["scalar", x] => "scalar:" ++ K.varNames.getD x.toNat! x
+          | _ => v)
+      | _, _ => "bad-args"
+  -- run the IR interpreter on concrete inputs under a pseudo-random oracle
+  | "c17.exec", [nm, dims, sc, ar, fuel, seed] => some <| match findKernel nm, inputs? dims sc ar, fuel.toNat?, seed.toNat? with
+      | some K, some inp, some f, some sd => showRes K (exec f K.body (inp.state (oracle sd)))
+      | _, _, _, _ => "bad-args"
   | _, _ => none
 
 end SkNet.Drive.C17
